@@ -46,9 +46,30 @@ SPELLINGS = [["http://a/x/y", "http://a/x%2Fy", "http://a/x%2fy", "http://a/x%25
              ["http://u:p@a/", "http://u%3Ap@a/", "http://u:p%40@a/"], ["/x/y", "/x%2Fy", "x/y", "x%2Fy"]]
 
 
+def split(*five):
+    return [{"op": "split", "val": [T(x) for x in five]}]
+
+
+def built(encoded=True, **kw):
+    k = {n: T(v) for n, v in kw.items()}
+    if encoded:
+        k["encoded"] = True
+    return [{"op": "build", "kw": k}]
+
+
+# URLs only the verbatim routes (SplitResult, build(encoded=True)) can make: a scheme that is not lower-case, a rootless path
+# under an authority -- next to the ordinary spellings they must not be confused with
+VERBATIM = [[ctor("http://a/"), split("HTTP", "a", "/", "", ""), split("Http", "a", "/", "", ""), built(scheme="HTTP", host="a", path="/"),
+             built(encoded=False, scheme="HTTP", host="a", path="/"), ctor("https://a/")],
+            [ctor("http://example.com/b/c"), split("http", "example.com", "xb/c", "", ""), built(scheme="http", host="example.com", path="xb/c"),
+             split("http", "example.com", "b/c", "", ""), ctor("http://example.com/xb/c")],
+            [ctor("http://example.com/"), ctor("http://example.com"), split("http", "example.com", "b", "", ""), ctor("http://example.com/b"),
+             split("http", "example.com", "/", "", "")]]
+
+
 def gen(params):
     rnd = random.Random(params.get("seed", 0))
-    fams = [variants(rnd, s) for s in SEEDS] + [[ctor(s) for s in fam] + [ctor(s, True) for s in fam] for fam in SPELLINGS]
+    fams = [variants(rnd, s) for s in SEEDS] + VERBATIM + [[ctor(s) for s in fam] + [ctor(s, True) for s in fam] for fam in SPELLINGS]
     for _ in range(params.get("nfam", 20)):
         fams.append(variants(rnd, grid.sample(rnd, ipvfuture=False)))
     for fam in fams:
